@@ -899,4 +899,250 @@ theorem reachable_never_panics (v : Gen.Variant) (bom : BomHandling) (d : Decode
   decoder_never_panics (famOk_variant v) (C08.famOfVariant_needsBounded v) k d
     (C07.lifeInv_reachable v bom d hr).fresh hfin src last b1 b2 cap hcap hrep
 
+/-! ## (a) continued: through the BOM life cycle -/
+
+/-- the scalar invariant of whichever decoder is current -/
+def curSI (v : Gen.Variant) : Cur (famOfVariant v) → Prop
+  | .nominal s => (variantScalar v).Inv s
+  | .utf8 s => (variantScalar .utf8).Inv s
+  | .utf16be s => (variantScalar .utf16Be).Inv s
+  | .utf16le s => (variantScalar .utf16Le).Inv s
+
+/-- the in-flight bytes of whichever decoder is current -/
+def curSeen (v : Gen.Variant) : Cur (famOfVariant v) → Nat
+  | .nominal s => (variantSpan v).seen s
+  | .utf8 s => (variantSpan .utf8).seen s
+  | .utf16be s => (variantSpan .utf16Be).seen s
+  | .utf16le s => (variantSpan .utf16Le).seen s
+
+theorem cur_call_span (v : Gen.Variant) (k : Sink) (c : Cur (famOfVariant v)) (src : List Nat) (last : Bool)
+    (b : Budget) (hi : curSI v c) (hb : ∀ x ∈ src, x < 256) :
+    curSI v (c.call k src last b).cur ∧
+    curSeen v (c.call k src last b).cur ≤ curSeen v c + (c.call k src last b).read ∧
+    ∀ l a, (c.call k src last b).res = .malformed l a →
+      ErrOk (l, a) ∧ l + a ≤ curSeen v c + (c.call k src last b).read := by
+  have key : ∀ (w : Gen.Variant) (s : (famOfVariant w).σ), (variantScalar w).Inv s →
+      (variantScalar w).Inv (call (famOfVariant w) k s src last b).st ∧
+      (variantSpan w).seen (call (famOfVariant w) k s src last b).st
+        ≤ (variantSpan w).seen s + (call (famOfVariant w) k s src last b).read ∧
+      ∀ l a, (call (famOfVariant w) k s src last b).res = .malformed l a →
+        ErrOk (l, a) ∧ l + a ≤ (variantSpan w).seen s + (call (famOfVariant w) k s src last b).read :=
+    fun w s hi =>
+      ⟨(call_scalar _ k (famOfVariant_laws w) (variantScalar w) s src last b hi hb).1,
+        (call_span (variantSpan w) k (famOfVariant_laws w) s src last b hi hb).1,
+        fun l a h => variant_call_malformed w k s src last b hi hb l a h⟩
+  cases c with
+  | nominal s => exact key v s hi
+  | utf8 s => exact key .utf8 s hi
+  | utf16be s => exact key .utf16Be s hi
+  | utf16le s => exact key .utf16Le s hi
+
+/-- what a `Decoder` call result must satisfy; `pos` = bytes consumed before the call, withheld
+bytes included -/
+def SpanRes (v : Gen.Variant) (pos : Nat) : DRes (famOfVariant v) → Prop
+  | .panic => True
+  | .ok res read _ d' _ =>
+    curSI v d'.cur ∧ curSeen v d'.cur + withheld d'.life ≤ pos + read ∧
+    ∀ l a, res = .malformed l a → ErrOk (l, a) ∧ l + a ≤ pos + read
+
+theorem checkingEnd_span (v : Gen.Variant) (k : Sink) (c : Cur (famOfVariant v)) (src : List Nat)
+    (last : Bool) (b : Budget) (off : Nat) (pre : List (List Nat × Res × Nat)) (preOut : List Nat) (pos : Nat)
+    (hi : curSI v c) (hs : curSeen v c ≤ pos + off) (hb : ∀ x ∈ src, x < 256) :
+    SpanRes v pos (checkingEnd k c src last b off pre preOut) := by
+  have h := cur_call_span v k c (src.drop off) last b hi (C07.drop_bytes off hb)
+  unfold checkingEnd SpanRes
+  generalize c.call k (src.drop off) last b = r at h
+  simp only
+  refine ⟨h.1, ?_, ?_⟩
+  · have : withheld (if last = true ∧ r.res = .inputEmpty then Life.finished else Life.converting) = 0 := by
+      split <;> rfl
+    rw [this]; have := h.2.1; omega
+  · intro l a hla
+    have := h.2.2 l a hla
+    exact ⟨this.1, by have := this.2; omega⟩
+
+theorem afterOne_span (v : Gen.Variant) (k : Sink) (c : Cur (famOfVariant v)) (src : List Nat)
+    (last : Bool) (fb : Nat) (b1 b2 : Budget) (pos : Nat)
+    (hi : curSI v c) (hs : curSeen v c + 1 ≤ pos) (hb : ∀ x ∈ src, x < 256) (hfb : fb < 256) :
+    SpanRes v pos (afterOne k c src last fb b1 b2) := by
+  have hb1 : ∀ x ∈ [fb], x < 256 := by intro x hx; simp only [List.mem_singleton] at hx; rw [hx]; exact hfb
+  have h := cur_call_span v k c [fb] false b1 hi hb1
+  have hle : (c.call k [fb] false b1).read ≤ 1 := cur_call_read_le k c [fb] false b1 (variant_alt_le v)
+  have hof := fun h => cur_call_outputFull_lt k c [fb] b1 h (by simp)
+  unfold afterOne
+  generalize c.call k [fb] false b1 = r1 at h hle hof
+  simp only
+  split
+  · exact checkingEnd_span v k r1.cur src last b2 0 _ _ pos h.1 (by have := h.2.1; omega) hb
+  · rename_i l a hres
+    refine ⟨h.1, ?_, ?_⟩
+    · simp only [withheld]; have := h.2.1; omega
+    · intro l' a' hla
+      simp only [Res.malformed.injEq] at hla
+      rw [← hla.1, ← hla.2]
+      have := h.2.2 l a hres
+      exact ⟨this.1, by have := this.2; omega⟩
+  · rename_i hres
+    split
+    · refine ⟨h.1, ?_, by intro l a hla; cases hla⟩
+      have := hof hres
+      simp only [List.length_singleton] at this
+      simp only [withheld]; have := h.2.1; omega
+    · trivial
+
+theorem afterTwo_span (v : Gen.Variant) (k : Sink) (c : Cur (famOfVariant v)) (src : List Nat)
+    (last : Bool) (b1 b2 : Budget) (pos : Nat)
+    (hi : curSI v c) (hc0 : curSeen v c = 0) (hpos : 2 ≤ pos) (hb : ∀ x ∈ src, x < 256) :
+    SpanRes v pos (afterTwo k c src last b1 b2) := by
+  have hb1 : ∀ x ∈ [0xEF, 0xBB], x < 256 := by decide
+  have h := cur_call_span v k c [0xEF, 0xBB] false b1 hi hb1
+  have hle : (c.call k [0xEF, 0xBB] false b1).read ≤ 2 := cur_call_read_le k c _ false b1 (variant_alt_le v)
+  unfold afterTwo
+  generalize c.call k [0xEF, 0xBB] false b1 = r1 at h hle
+  simp only
+  split
+  · exact checkingEnd_span v k r1.cur src last b2 0 _ _ pos h.1 (by have := h.2.1; omega) hb
+  · rename_i l a hres
+    have hm := h.2.2 l a hres
+    by_cases hr1 : r1.read = 1
+    · rw [if_pos hr1]
+      refine ⟨h.1, ?_, ?_⟩
+      · simp only [withheld]; have := h.2.1; omega
+      · intro l' a' hla
+        simp only [Res.malformed.injEq] at hla
+        rw [← hla.1, ← hla.2]
+        obtain ⟨⟨e1, e2, e3, e4⟩, e5⟩ := hm
+        simp only at e1 e2 e3 e4
+        have hl : l = 1 := by omega
+        have ha : a = 0 := by omega
+        subst hl; subst ha
+        exact ⟨by unfold ErrOk; decide, by omega⟩
+    · rw [if_neg hr1]
+      refine ⟨h.1, ?_, ?_⟩
+      · simp only [withheld]; have := h.2.1; omega
+      · intro l' a' hla
+        simp only [Res.malformed.injEq] at hla
+        rw [← hla.1, ← hla.2]
+        exact ⟨hm.1, by have := hm.2; omega⟩
+  · split
+    · rename_i hr1
+      refine ⟨h.1, ?_, by intro l a hla; cases hla⟩
+      simp only [withheld]; have := h.2.1; omega
+    · trivial
+
+/-- the invariant of a `Decoder` that has consumed `pos` bytes of its stream -/
+structure LifeSpan (v : Gen.Variant) (d : Decoder (famOfVariant v)) (pos : Nat) : Prop where
+  inv : curSI v d.cur
+  seen : curSeen v d.cur + withheld d.life ≤ pos
+  fresh : Fresh d
+  pend : PendInv d
+
+theorem lifeSpan_new (v : Gen.Variant) (nom : Nominal) (bom : BomHandling) :
+    LifeSpan v (Decoder.new (famOfVariant v) nom bom) 0 := by
+  refine ⟨(variantScalar v).init, ?_, fresh_new nom bom, pendInv_new nom bom⟩
+  rw [withheld_new]
+  show (variantSpan v).seen (famOfVariant v).init + 0 ≤ 0
+  rw [(variantSpan v).init]; exact Nat.le_refl _
+
+theorem curSeen_init (v : Gen.Variant) : curSeen v (.nominal (famOfVariant v).init) = 0 := (variantSpan v).init
+
+theorem curSeen_utf8_init (v : Gen.Variant) : curSeen v (.utf8 utf8Fam.init) = 0 := (variantSpan .utf8).init
+theorem curSeen_utf16be_init (v : Gen.Variant) : curSeen v (.utf16be (utf16Fam true).init) = 0 :=
+  (variantSpan .utf16Be).init
+theorem curSeen_utf16le_init (v : Gen.Variant) : curSeen v (.utf16le (utf16Fam false).init) = 0 :=
+  (variantSpan .utf16Le).init
+
+/-- every result of a `Decoder` call satisfies `SpanRes` -/
+theorem rawCall_spanRes (v : Gen.Variant) (k : Sink) (d : Decoder (famOfVariant v)) (pos : Nat)
+    (hd : LifeSpan v d pos) (src : List Nat) (last : Bool) (b1 b2 : Budget) (hb : ∀ x ∈ src, x < 256) :
+    SpanRes v pos (d.rawCall k src last b1 b2) := by
+  have hwle : withheld d.life ≤ pos := by have := hd.seen; omega
+  have hsound := rawCall_sound_full (famBB_variant v) k d src [] pos last b1 b2 (fun _ => rfl) hwle hd.fresh hd.pend
+  have hleaf := rawCall_leaf k d src last b1 b2
+  generalize d.rawCall k src last b1 b2 = r at hleaf hsound
+  cases hleaf with
+  | finished _ => trivial
+  | idle _ _ => exact ⟨hd.inv, by have := hd.seen; omega, by intro l a h; cases h⟩
+  | wait n life' hsn _ _ =>
+    refine ⟨hd.inv, ?_, by intro l a h; cases h⟩
+    have hc := hd.fresh hsn
+    have h2 := hsound.2
+    simp only at h2 ⊢
+    rw [hc, curSeen_init]; omega
+  | direct hl =>
+    have hw0 : withheld d.life = 0 := by
+      obtain ⟨life, c⟩ := d
+      rcases hl with hl | hl
+      · simp only at hl; rw [hl]; rfl
+      · cases life <;> first | rfl | cases hl
+    exact checkingEnd_span v k d.cur src last b2 0 [] [] pos hd.inv (by have := hd.seen; omega) hb
+  | bom8 off _ =>
+    exact checkingEnd_span v k (.utf8 utf8Fam.init) src last b2 off [] [] pos (variantScalar .utf8).init
+      (by rw [curSeen_utf8_init]; omega) hb
+  | bom16 be off _ =>
+    cases be with
+    | true =>
+      exact checkingEnd_span v k (.utf16be (utf16Fam true).init) src last b2 off [] [] pos
+        (variantScalar .utf16Be).init
+        (by rw [curSeen_utf16be_init]; omega) hb
+    | false =>
+      exact checkingEnd_span v k (.utf16le (utf16Fam false).init) src last b2 off [] [] pos
+        (variantScalar .utf16Le).init
+        (by rw [curSeen_utf16le_init]; omega) hb
+  | one fb hfb =>
+    have hw1 : withheld d.life = 1 := by
+      obtain ⟨life, c⟩ := d
+      cases life <;> simp [replayOne] at hfb <;> rfl
+    exact afterOne_span v k d.cur src last fb b1 b2 pos hd.inv (by have := hd.seen; omega) hb
+      (C07.replayOne_lt _ _ hfb)
+  | two hl =>
+    have hc := hd.fresh (by rw [hl]; rfl)
+    have hw2 : withheld d.life = 2 := by rw [hl]; rfl
+    exact afterTwo_span v k d.cur src last b1 b2 pos hd.inv (by rw [hc]; exact curSeen_init v)
+      (by omega) hb
+
+/-- **`LifeSpan` is preserved by every call** -/
+theorem rawCall_lifeSpan (v : Gen.Variant) (k : Sink) (d : Decoder (famOfVariant v)) (pos : Nat)
+    (hd : LifeSpan v d pos) (src : List Nat) (last : Bool) (b1 b2 : Budget) (hb : ∀ x ∈ src, x < 256)
+    (res : Res) (read : Nat) (out : List Nat) (d' : Decoder (famOfVariant v))
+    (inner : List (List Nat × Res × Nat)) (h : d.rawCall k src last b1 b2 = .ok res read out d' inner) :
+    LifeSpan v d' (pos + read) := by
+  have hs := rawCall_spanRes v k d pos hd src last b1 b2 hb
+  rw [h] at hs
+  exact ⟨hs.1, hs.2.1, rawCall_fresh k d src last b1 b2 res read out d' inner hd.fresh h,
+    rawCall_pendInv (famBB_variant v) k d src last b1 b2 res read out d' inner hd.fresh hd.pend h⟩
+
+/-- the decoders reachable from `Decoder.new` by any history of calls, with the number of bytes of
+the stream they have consumed (withheld potential-BOM bytes included) -/
+inductive DReachAt (v : Gen.Variant) (nom : Nominal) (bom : BomHandling) : Decoder (famOfVariant v) → Nat → Prop
+  | new : DReachAt v nom bom (Decoder.new (famOfVariant v) nom bom) 0
+  | call (k : Sink) (d : Decoder (famOfVariant v)) (pos : Nat) (src : List Nat) (last : Bool) (b1 b2 : Budget)
+      (res : Res) (read : Nat) (out : List Nat) (d' : Decoder (famOfVariant v))
+      (inner : List (List Nat × Res × Nat)) :
+      DReachAt v nom bom d pos → (∀ x ∈ src, x < 256) → d.rawCall k src last b1 b2 = .ok res read out d' inner →
+      DReachAt v nom bom d' (pos + read)
+
+theorem lifeSpan_reachable (v : Gen.Variant) (nom : Nominal) (bom : BomHandling) (d : Decoder (famOfVariant v))
+    (pos : Nat) (h : DReachAt v nom bom d pos) : LifeSpan v d pos := by
+  induction h with
+  | new => exact lifeSpan_new v nom bom
+  | call k d pos src last b1 b2 res read out d' inner _ hb hcall ih =>
+    exact rawCall_lifeSpan v k d pos ih src last b1 b2 hb res read out d' inner hcall
+
+/-- **C06, `Malformed(len, after)` of the public `Decoder`, all 40 encodings, three BOM modes**: for
+every decoder reachable from `Decoder.new` by any history of calls that consumed `pos` bytes, a
+`decode_to_*_without_replacement` call that returns `Malformed(l, a)` has `1 ≤ l ≤ 4`, `a ≤ 3`,
+`l + a ≤ 6` and `l + a ≤ pos + read` — incl. the replay of withheld potential-BOM bytes with its
+`after + 1` correction -/
+theorem rawCall_malformed_ranges (v : Gen.Variant) (nom : Nominal) (bom : BomHandling)
+    (d : Decoder (famOfVariant v)) (pos : Nat) (hr : DReachAt v nom bom d pos) (k : Sink) (src : List Nat)
+    (last : Bool) (b1 b2 : Budget) (hb : ∀ x ∈ src, x < 256) (l a read : Nat) (out : List Nat)
+    (d' : Decoder (famOfVariant v)) (inner : List (List Nat × Res × Nat))
+    (h : d.rawCall k src last b1 b2 = .ok (.malformed l a) read out d' inner) :
+    1 ≤ l ∧ l ≤ 4 ∧ a ≤ 3 ∧ l + a ≤ 6 ∧ l + a ≤ pos + read := by
+  have hs := rawCall_spanRes v k d pos (lifeSpan_reachable v nom bom d pos hr) src last b1 b2 hb
+  rw [h] at hs
+  obtain ⟨⟨a1, a2, a3, a4⟩, a5⟩ := hs.2.2 l a rfl
+  exact ⟨a1, a2, a3, a4, a5⟩
+
 end EncodingRs.Thm.C06
